@@ -78,7 +78,7 @@ def history_campaign(ctx, out, judge, *, n_hist, n_steps, profiles, labels_sets,
         for i in range(n_steps):
             ti = 0 if ctx.rng.random() < 0.7 else 1
             op = H.random_op(ctx.rng, r.impl, ti, labels=labels, typed=cfg["typed"], malformed=prof.get("malformed", 0.1), ops=prof.get("ops"),
-                             did_rate=prof.get("did_rate", 0.15), dids=prof.get("dids", (1001, 1002, "x", "y", 7)))
+                             did_rate=prof.get("did_rate", 0.15), dids=prof.get("dids", (1001, 1002, "x", "y", 7, 0, "")))
             s = r.step(op)
             log.append(H.clean(op))
             size_max = max(size_max, s.n_nodes)
@@ -182,8 +182,10 @@ def all_single_ops(impl, ti, *, labels, full=True):
         for sp in H.paths_of(impl.trees[other])[:2]:
             for deep in (None, True):
                 ops.append({"op": "w.addnode", "t": ti, "p": p, "st": other, "sp": sp, "before": None, "deep": deep})
-        for b in bs[:5] + bs[8:9]:
+        for b in bs[:5] + [-1, -2, n] + bs[8:9]:
             ops.append({"op": "w.addtree", "t": ti, "p": p, "st": other, "before": b, "deep": None})
+        for sp in [[]] + H.paths_of(impl.trees[other])[:1]:
+            ops.append({"op": "w.copykids", "t": ti, "p": p, "st": other, "sp": sp, "deep": True, "tree_api": not sp})
     for q in paths:
         for a in labels[:2]:
             for via in ("prepend_sibling", "append_sibling"):
